@@ -79,8 +79,13 @@ TNRet == /\ HasLine("nret")
          /\ (L.cmp => L.res = NestedGot(M(L.i), L.c))
          /\ Consume
 
+\* a callback of instance L.i sends L.ev to instance L.to; what comes back is logged by the callback itself
+TXCall == /\ HasLine("xcall")
+          /\ IF Idle(M(L.to)) THEN XCall(L.i, L.c, L.to, L.ev, L.gv) ELSE XQueue(L.i, L.c, L.to, L.ev)
+          /\ Consume
+
 ProjOK(j, p) ==
-    IF ~(Born(j) /\ insts'[j].m.alive) THEN TRUE
+    IF ~(Born(j) /\ insts'[j].m.alive) \/ p.state = "ctor" THEN TRUE
     ELSE LET d == classes[insts'[j].cls]
              m == insts'[j].m
          IN /\ p.cur = m.cur
@@ -98,6 +103,15 @@ TRet == /\ HasLine("ret")
            /\ (o.k = "exc") => L.exc = o.exc
         /\ \A j \in Slots : ProjOK(j, L.proj[j])
         /\ Consume
+
+TXRet == /\ HasLine("xret")
+         /\ LET o == XOut(L.i, L.c) IN
+            /\ L.k = o.k
+            /\ (o.k = "ret" /\ L.cmp) => L.res = o.res
+            /\ (o.k = "exc") => L.exc = o.exc
+         /\ XRet(L.i, L.c)
+         /\ \A j \in Slots : ProjOK(j, L.proj[j])
+         /\ Consume
 
 \* C16: a class statement adds a class; it never changes one that exists (the class table is fixed
 \* in the spec), and the structure read back from every class object is the declared one
@@ -136,7 +150,7 @@ TSilent == /\ sil < SilentBound
            /\ n' = n + 1
            /\ UNCHANGED <<tid, l>>
 
-TraceNext == TNew \/ TCall \/ TBegin \/ TEnd \/ TNCall \/ TNRet \/ TRet \/ TClass \/ TProbe \/ TSilent
+TraceNext == TNew \/ TCall \/ TBegin \/ TEnd \/ TNCall \/ TNRet \/ TXCall \/ TXRet \/ TRet \/ TClass \/ TProbe \/ TSilent
 TraceSpec == TraceInit /\ [][TraceNext]_tvars
 
 (***************************************************************************)
